@@ -9,7 +9,7 @@ From GIV.Lib Require Import Regex Str.
 From GIV.Lib Require Import Backtrack.
 From GIV.Gen Require Import BlockRegex.
 From GIV.Model Require Import C02 C10 C11 C10B C11B.
-From GIV.Proofs Require Import C10 C11 C11B C11E.
+From GIV.Proofs Require Import C10 C11 C11B C11E C11H.
 Import ListNotations.
 
 (* every diagnostic is counted whether or not it is displayed, so a warnings-as-errors run fails
@@ -86,3 +86,22 @@ Theorem C11_unguarded_patterns_total : forall x, no_lf x ->
   bmatch re_indent x <> None /\ bmatch re_tagver x <> None /\ bmatch re_tagstab x <> None.
 Proof. exact unguarded_patterns_total. Qed.
 Print Assumptions C11_unguarded_patterns_total.
+
+(* "a malformed annotation is ignored rather than half-applied": a failed _parse_annotations hands on no annotation at all ... *)
+Theorem C11_failed_parse_is_empty : forall popt ln q column fields existing,
+  po_success (parse_annotations_d popt ln q column fields existing) = false ->
+  po_anns (parse_annotations_d popt ln q column fields existing) = [] /\ po_raws (parse_annotations_d popt ln q column fields existing) = [].
+Proof. exact failed_parse_is_empty. Qed.
+Print Assumptions C11_failed_parse_is_empty.
+
+(* ... and a continuation line of a parameter whose annotations are malformed leaves that parameter's annotations (and their
+   position), the annotations of the identifier and the tags exactly as they were, however many well-formed annotations stand in
+   front of the malformed one on that line *)
+Theorem C11_malformed_continuation_not_applied : forall cx b st k p,
+  l_part st = Some PParams -> l_cur st = CurParam k -> part_get (bk_params b) k = Some p ->
+  (let line := if is_empty_line (cx_line cx) then cx_line cx else rstrip (cx_line cx) in
+   po_success (fst (parse_fields_d true true (cx_ln cx) (cx_orig cx) (cx_co cx) line (Some (pt_anns p, pt_apos p)))) = false) ->
+  exists b' p', l_blk (step_cont cx b st) = Some b' /\ part_get (bk_params b') k = Some p'
+                /\ pt_anns p' = pt_anns p /\ pt_apos p' = pt_apos p /\ bk_anns b' = bk_anns b /\ bk_tags b' = bk_tags b.
+Proof. exact malformed_continuation_not_applied. Qed.
+Print Assumptions C11_malformed_continuation_not_applied.
